@@ -62,6 +62,8 @@ def rand_frame(rng, kind, addr, ca=None):
         return F.hexs((19 << 107) | (r(1 << 83) << 24) | addr, 112)
     if kind == "df24":
         return F.hexs((24 << 107) | (r(1 << 83) << 24) | addr, 112)
+    if kind in ("df22", "df23", "df25", "df26", "df27", "df28", "df29", "df30", "df31"):
+        return F.hexs((int(kind[2:]) << 107) | (r(1 << 83) << 24) | addr, 112)
     if kind.startswith("tc"):
         t = kind[2:]
         if "." in t:
